@@ -63,6 +63,9 @@ def monitor(sc, r):
         # "Do not handle messages when closing/closed": nothing is delivered once CLOSING was reported (theorem C10_closing_state_inert)
         v.append(('no_delivery_once_closing', r['delivered_while_closing']))
     ag = r.get('after_grace')
+    if ag and ag['reported'] != rep and (not chain_ok(kind, ag['reported']) or not closed_last_ok(kind, ag['reported'])):
+        # what a disconnect() still in flight at the end of the scenario goes on to report
+        v.append(('closed_once_last' if chain_ok(kind, ag['reported']) else 'monotone', ag['reported']))
     if ag and ag['state'] == 'CLOSING':
         v.append(('closing_reaches_closed', {'state_after_disconnect_timeout': ag['state'], 'in_registry': ag['in_registry'], 'reported': rep}))
     if kind != 'server' and r['written_at_closed'] is not None and r['written'] > r['written_at_closed']:
@@ -172,6 +175,12 @@ def systematic():
             bases.append((kind, pre + [['feed', 'msg'], ['tail_disc', order], ['feed', 'msg'], ['send', 'ok']]))
         for mode in ('ok', 'fail'):
             bases.append((kind, pre + [['qsend', 'ok'], ['qsend', mode], ['feed', 'msg'], ['qsend', 'ok'], ['send', 'ok']]))
+    # a local disconnect(REQUESTED) with a queued message whose drain is still pending, and an EOF / reset / second
+    # disconnect() right behind it: CLOSING and CLOSED exactly once
+    for kind, pre in (('out', [['create'], ['conn_ok', 'ok']]), ('in', [['accept'], ['init', 'peerinit_P']]),
+                      ('server', [['create'], ['conn_ok', 'ok'], ['start_reader']])):
+        for second in (['feed', 'eof'], ['feed', 'err'], ['disc', 'REQUESTED'], ['disc', 'UNKNOWN'], ['send', 'fail']):
+            bases.append((kind, pre + [['qsend', 'held'], ['disc', 'REQUESTED'], second, ['feed', 'msg']]))
     # cancellation of the attempt at each of its awaits, including the wait_closed() inside the disconnect() that its
     # own CancelledError handler runs (second cancel): CLOSED must still be reported
     for kind in ('out', 'resp'):
@@ -337,6 +346,33 @@ def run(run: Run):
     finally:
         c10_sim.cleanup_tmp()
 
+    # the same monitors on the per-connection streams of whole requests: Network.create_peer_connection with both ports
+    # advertised (first choice refused / accepted, second would accept), both modes, on the C11 rig
+    from checks import c11, c11_sim
+    try:
+        for sc in c11.second_port_scripts() + c11.port_scripts()[::3]:
+            try:
+                r = c11_sim.run_script(c11.impl_time(sc))
+            except Exception as e:
+                run.add_finding(Finding(f'crash:{type(e).__name__}', f'request script raised {type(e).__name__}: {e}', {'script': sc}))
+                continue
+            run.case({'request': sc}, kind='request-streams')
+            for st in r.get('streams', []):
+                bad = None
+                if not chain_ok('peer', st['reported']):
+                    bad = 'monotone'
+                elif not closed_last_ok('peer', st['reported']):
+                    bad = 'closed_once_last'
+                elif r['outcome'] != 'pending' and not r['orphans'] and st['registered'] != st['open'] and st['state'] != 'CONNECTING':
+                    bad = 'registry_exact'
+                if bad:
+                    run.add_finding(Finding(f'{bad}:request:' + '>'.join(x[:5] for x in st['reported'])[:60],
+                                            f'{bad} violated by a connection of a create_peer_connection request: reported={st["reported"]} '
+                                            f'registered={st["registered"]} open={st["open"]}', {'request_script': sc},
+                                            observed=st, expected='strictly forward; CLOSED once and last; registered iff open'))
+    finally:
+        c11_sim.cleanup_tmp()
+
     shard = 250
     texts = [coq_text([_reindex(row, j) for j, row in enumerate(rows[i:i + shard])]) for i in range(0, len(rows), shard)]
     try:
@@ -364,6 +400,20 @@ def _reindex(row, j):
 
 
 def replay(rep) -> int:
+    if 'request_script' in rep['witness']:
+        from checks import c11, c11_sim
+        sc = rep['witness']['request_script']
+        try:
+            r = c11_sim.run_script(c11.impl_time(sc))
+        finally:
+            c11_sim.cleanup_tmp()
+        print('request script:', json.dumps(sc))
+        bad = 0
+        for st in r.get('streams', []):
+            ok = chain_ok('peer', st['reported']) and closed_last_ok('peer', st['reported']) and (st['registered'] == st['open'] or st['state'] == 'CONNECTING')
+            print(('ok   ' if ok else 'FAILS'), json.dumps(st))
+            bad += 0 if ok else 1
+        return 1 if bad else 0
     sc = rep['witness']['scenario']
     try:
         r = c10_sim.run_scenario(sc)
